@@ -170,10 +170,11 @@ Fixpoint upd {A} (j : nat) (f : A -> A) (l : list A) : list A :=
   | x :: r, S j' => x :: upd j' f r
   end.
 
+Definition cfg_dflt : scfg := {| s_kind := AKLast; s_delta := false; s_limit := 0; s_filter := None |}.
+
 (** instrument.aggregate: every measure function of the instrument is called once. *)
 Definition dispatch (cfgs : list scfg) (feeds : list nat) (a : aset) (v : Z) (sts : list sstate) : list sstate :=
-  fold_left (fun sts j => upd j (s_measure (nth j cfgs {| s_kind := AKLast; s_delta := false; s_limit := 0; s_filter := None |}) a v) sts)
-            feeds sts.
+  fold_left (fun sts j => upd j (s_measure (nth j cfgs cfg_dflt) a v) sts) feeds sts.
 
 Fixpoint collect_all (cfgs : list scfg) (sts : list sstate) : list points * list sstate :=
   match cfgs, sts with
@@ -196,15 +197,21 @@ Fixpoint metrics_of (ds : list aggdecl) (cfgs : list scfg) (outs : list points) 
   | _, _, _ => []
   end.
 
-Fixpoint p_run (ds : list aggdecl) (cfgs : list scfg) (feeds : list (list nat)) (h : list event) (sts : list sstate)
-  : list (list metric) :=
+(** The points every aggregator reports at each collection ... *)
+Fixpoint p_run_raw (cfgs : list scfg) (feeds : list (list nat)) (h : list event) (sts : list sstate)
+  : list (list points) :=
   match h with
   | [] => []
-  | EMeasure i a v :: r => p_run ds cfgs feeds r (dispatch cfgs (nth i feeds []) a v sts)
+  | EMeasure i a v :: r => p_run_raw cfgs feeds r (dispatch cfgs (nth i feeds []) a v sts)
   | ECollect :: r =>
       let '(outs, sts') := collect_all cfgs sts in
-      metrics_of ds cfgs outs :: p_run ds cfgs feeds r sts'
+      outs :: p_run_raw cfgs feeds r sts'
   end.
+
+(** ... and the metrics formed from them. *)
+Definition p_run (ds : list aggdecl) (cfgs : list scfg) (feeds : list (list nat)) (h : list event) (sts : list sstate)
+  : list (list metric) :=
+  map (metrics_of ds cfgs) (p_run_raw cfgs feeds h sts).
 
 (** The whole scenario: limit, temporality mask, views, instruments, history. *)
 Definition model (L tmask : N) (vs : list view) (is : list inst) (h : list event) : list (list metric) :=
